@@ -398,24 +398,35 @@ def scan_lexicons(source: AnyPath) -> list[ScanInfo]:
     source = Path(source).expanduser()
     infos: list[ScanInfo] = []
 
-    lex_re = re.compile(b'<(Lexicon|LexiconExtension|Extends)\\b([^>]*)>', flags=re.M)
-    attr_re = re.compile(b'''\\b(id|version|label)=["']([^"']+)["']''', flags=re.M)
+    # attribute values may be quoted with " or ' and may contain > or the
+    # other quote character
+    lex_re = re.compile(
+        b'<(Lexicon|LexiconExtension|Extends)\\b'
+        b'((?:[^>"\']|"[^"]*"|\'[^\']*\')*)>',
+        flags=re.M
+    )
+    attr_re = re.compile(
+        b'''([^\\s=]+)\\s*=\\s*(?:"([^"]*)"|'([^']*)')''',
+        flags=re.M
+    )
 
     with open(source, 'rb') as fh:
         for m in lex_re.finditer(fh.read()):
             lextype, remainder = m.groups()
-            attrs = {
-                _m.group(1).decode("utf-8"): _m.group(2).decode("utf-8")
-                for _m in attr_re.finditer(remainder)
-            }
+            attrs: dict[str, str] = {}
+            for _m in attr_re.finditer(remainder):
+                name = _m.group(1).decode("utf-8")
+                if name in ('id', 'version', 'label') and name not in attrs:
+                    value = _m.group(2) if _m.group(2) is not None else _m.group(3)
+                    attrs[name] = _unescape_attribute(value.decode("utf-8"))
+            if 'id' not in attrs or 'version' not in attrs:
+                raise LMFError(f'<{lextype.decode("utf-8")}> missing id or version')
             info: ScanInfo = {
                 "id": attrs["id"],
                 "version": attrs["version"],
                 "label": attrs.get("label"),
                 "extends": None,
             }
-            if 'id' not in info or 'version' not in info:
-                raise LMFError(f'<{lextype.decode("utf-8")}> missing id or version')
             if lextype != b'Extends':
                 infos.append(info)
             elif len(infos) > 0:
@@ -427,6 +438,25 @@ def scan_lexicons(source: AnyPath) -> list[ScanInfo]:
                 raise LMFError('invalid use of <Extends> in WN-LMF file')
 
     return infos
+
+
+_XML_ENTITIES = {'amp': '&', 'lt': '<', 'gt': '>', 'quot': '"', 'apos': "'"}
+
+
+def _unescape_attribute(value: str) -> str:
+    """Resolve references in a raw XML attribute value as a parser would."""
+
+    def resolve(m: re.Match) -> str:
+        ref = m.group(1)
+        if ref.startswith('#x'):
+            return chr(int(ref[2:], 16))
+        elif ref.startswith('#'):
+            return chr(int(ref[1:]))
+        return _XML_ENTITIES.get(ref, m.group(0))
+
+    # literal whitespace characters are normalized to spaces
+    value = re.sub(r'\r\n|[\t\n\r]', ' ', value)
+    return re.sub(r'&(#x[0-9a-fA-F]+|#[0-9]+|\w+);', resolve, value)
 
 
 _Elem = dict[str, Any]  # basic type for the loaded XML data
